@@ -39,7 +39,15 @@ MANIFEST = {
             "to agree with C15's strict reader (Spec/TimestampSpec.v) and with C15's model of strptime (Model/Timestamp.v). "
             "The model tree is arranged in the os.listdir order the worker observed, so most filesystem-route answers are "
             "compared in order and with their exact exception class. "
-            "Variants detected at run time: ts_mode (TextOnDicts = known finding C12-dict-timestamp-text), opt_mode.",
+            "Variants detected at run time: ts_mode (TextOnDicts = known finding C12-dict-timestamp-text), opt_mode. "
+            "Source-text tie: translators/tr_filters.py reads, on every run, the ast of filters.py (FILTER_OPS, "
+            "_check_filter_components, Filter.__new__ / _check_property, apply_common_filters, _check_filter, FilterSet) and of "
+            "the shortcut code of filesystem.py (_update_allow, _find_search_optimizations, AuthSet.__init__, "
+            "_get_matching_dir_entries) into Gen/FilterFacts.v; Props/C12Src.v (17 obligations) states place by place that the "
+            "text is the choice the model mirrors and instantiates the main theorems at the shortcut variant the text denotes; "
+            "the variant read from the text must agree with the one the run-time witnesses show. The tie is textual: ANY edit "
+            "of a tied function (docstrings / comments apart), also a behaviour-preserving one, breaks the obligation about "
+            "that place by name.",
     "technique": "Coq proof over a hand-written model + correspondence run + reference-evaluation oracle",
 }
 
@@ -1470,6 +1478,29 @@ def compare(case, impl, model, dis, improved, scan_raises):
     return n
 
 
+def source_step(run):
+    """translators/tr_filters.py -> Gen/FilterFacts.v -> Props/C12Src.v (call inside common.Lock()).  Returns the
+    choices read from the source text, or None when the translator aborted (the obligations then count as
+    undischarged)."""
+    import tr_filters
+    src_props = "Props/C12Src.v"
+    facts = None
+    try:
+        text, facts = tr_filters.translate(common.REPO, None)
+        common.write_if_changed(os.path.join(common.COQ, "Gen", "FilterFacts.v"), text)
+    except tr_filters.TranslateError as e:
+        run.broken.append(Broken("translator", "tr_filters: " + str(e)[:200], {"error": str(e)}))
+    except (OSError, SyntaxError, ValueError, AttributeError, IndexError, KeyError) as e:
+        run.broken.append(Broken("translator", "tr_filters", {"error": "%s: %s" % (type(e).__name__, e)}))
+    if facts is not None:
+        res = common.build_props(src_props)
+        run.add_build(res, run.coverage.get("checker_cmd", "") + " ; Props/C12Src.vo (source-text instance)")
+        run.coverage["source_text_choices"] = {k: v for k, v in facts.items()}
+    else:
+        run.coverage["obligations"] += len(common.theorems_in(src_props))
+    return facts
+
+
 def check(run):
     thorough = run.tier == "thorough"
     run.coverage["rule"] = (
@@ -1495,6 +1526,7 @@ def check(run):
     with common.Lock():
         res = common.build_props("Props/C12.v")
         run.add_build(res, "make -C coq Props/C12.vo (coqc 8.16.1, full .vo) + Print Assumptions per theorem")
+        facts = source_step(run)
     # variants
     mode, om, wres = select_variant()
     run.coverage["variant"] = {"ts_mode": mode, "opt_mode": om}
@@ -1502,6 +1534,19 @@ def check(run):
         run.broken.append(Broken("correspondence", "variant witnesses match no variant of the model (ts_mode=%s opt_mode=%s)" % (mode, om),
                                  {"witness": WITNESS, "impl": wres}))
         mode, om = mode or "TextOnDicts", om or "OptAnyValue"
+    # the source text and the behaviour of the witnesses must denote the same choices
+    if facts is not None:
+        text_om = {"CfgAnyValue": "OptAnyValue", "CfgStringsOnly": "OptStringsOnly"}.get(facts.get("opt"))
+        probes = {"opt": run.coverage["variant"]["opt_mode"], "ops": (wres.get("filter_ops") if isinstance(wres, dict) else None)}
+        run.coverage["behaviour_probes"] = probes
+        diff = {}
+        if text_om is not None and probes["opt"] is not None and text_om != probes["opt"]:
+            diff["opt"] = {"text": text_om, "behaviour": probes["opt"]}
+        if probes["ops"] is not None and probes["ops"] != facts.get("ops"):
+            diff["ops"] = {"text": facts.get("ops"), "behaviour": probes["ops"]}
+        if diff:
+            run.broken.append(Broken("correspondence", "the source text and the behaviour of the witnesses denote different choices",
+                                     {"differences": diff}))
     # cases
     rng = run.rng
     n_pops = 480 if thorough else 110
@@ -1610,6 +1655,7 @@ def check(run):
                             "impl": {k2: v[:160] for k2, v in r["queries"][qi].items() if isinstance(v, str)}})
     run.coverage["trusted_base"] += [
         "coq/Model/Filters.v: hand-written model (compared with the implementation on every run)",
+        "translators/tr_filters.py and the function texts recorded in it (what `the choice the model mirrors` is, place by place)",
         "the harness's typed-tree generator and its rendering to JSON / Gallina; `parse` is not modelled: the harness "
         "assumes which properties become STIXdatetime and checks that assumption against what the stores return",
         "harness reference evaluation (Python ==, <, in on canonical values; timestamps as instants)",
